@@ -49,6 +49,7 @@ def _sq_units():
 
 
 HARNESSES = {
+    "closure": dict(units=[dict(src="closure.cpp")]),
     "iter": dict(units=[dict(src="iter.cpp")]),
     "seq": dict(units=_sq_units()),
     "any": dict(units=[dict(src="any.cpp")]),
@@ -260,6 +261,30 @@ PROPS["C12"] = dict(
                  "xstepping_iterator is only used with a positive step and a range whose length is a multiple of the step"],
 )
 
+PROPS["C07"] = dict(
+    level="exploration",
+    batches=dict(
+        quick=[dict(harness="closure", build="san", runs=150000, wall_cap=600)],
+        thorough=[dict(harness="closure", build="san", runs=1500000, wall_cap=2400),
+                  dict(harness="closure", build="plain", runs=4000000, offset=1500000, wall_cap=2400),
+                  dict(harness="closure", build="plain", runs=300, offset=5500000, valgrind=True, workers=8, wall_cap=1200)],
+    ),
+    rule=("a case is one seeded history (1-25 operations) over three referents (a copy-counting tracked object, a flag, two doubles, an int each), an owner actor that writes them directly, and up to four wrapper handles. "
+          "Wrappers are built by closure, const_closure, closure_pointer, const_closure_pointer, optional(x, flag), xmasked_value, proxy_wrapper and xcomplex from source expressions of category "
+          "{lvalue, const lvalue, prvalue, xvalue, const xvalue}; for rvalues the source temporary lives on the heap and is freed before the step ends (the injected end of lifetime). "
+          "Further steps write through a wrapper, copy it, assign or move-assign one into another, swap two, take its address, destroy it. After every step every live wrapper is read through its lvalue, const and rvalue accessors: "
+          "wrappers built from an lvalue must read the referent's current value, designate its address (also through operator& / operator->), must not have copied it, and keep designating it after assignment (no rebinding); "
+          "wrappers built from a temporary must read their own value, at an address that is neither a referent nor the dead temporary. forward_sequence and bitset element references are checked by dedicated steps. "
+          "The closure_type trait table is evaluated once as a precondition of the model (static half; not simulation). Non-trivial: at least two state-changing steps. Distinct: distinct run digests."),
+    probes=["wrapper_built_from_lvalue", "wrapper_built_from_temporary_that_died", "write_through_reference_wrapper", "owner_write_behind_wrapper", "reference_wrapper_copied", "value_wrapper_copied",
+            "wrapper_assigned", "wrapper_move_assigned", "wrappers_swapped", "swap_of_two_wrappers_onto_same_referent", "forward_sequence_checked", "bitset_reference_checked"],
+    components=dict(real=["include/xtl/xclosure.hpp", "include/xtl/xproxy_wrapper.hpp", "include/xtl/xoptional.hpp (closures, operator&)", "include/xtl/xmasked_value.hpp", "include/xtl/xcomplex.hpp (closures)", "include/xtl/xsequence.hpp (forward_sequence)", "include/xtl/xdynamic_bitset.hpp (xbitset_reference)"],
+                    stub=["copy/move-counting tracked payload", "heap-allocated source temporaries whose lifetime the harness ends", "owner actor", "type-erased wrapper handles"]),
+    assumptions=["the static half of the property (closure_type_t & co. on every cv/ref combination) is compile-time and outside this technique; only the entries the model relies on are evaluated, const-ness of by-value closures is not judged",
+                 "the source of a moving assignment is unspecified: it may keep its value or receive the target's previous one (xclosure_wrapper move-assigns by swapping)",
+                 "proxy-to-proxy assignment of xoptional<T&,B&> and assignment through const closures do not compile and are not generated"],
+)
+
 PENDING = "claimed in DESIGN.md section 4 but its harness is not built yet in this tree; listed here until the check exists"
 NOT_APPLICABLE = {
     "C04": "pure function of the operands of one call (presence flags and values); no history, fault position, schedule or environment to simulate (DESIGN.md 5)",
@@ -306,6 +331,12 @@ MANIFEST_TEXT = {
         design_ref="4.5",
         note="histories are sampled, fault positions inside each sampled history are enumerated; global operator new is replaced in the harness binary",
         technique="deterministic simulation with fault injection: injected throws and allocation failures at enumerated fault points, lifetime registry, reference model",
+    ),
+    "C07": dict(
+        text="dynamic half only: seeded histories in which wrappers of every kind are built from lvalues and from temporaries whose lifetime the simulator ends, then written through, copied, assigned, swapped and addressed while an owner actor writes the referents behind them; aliasing (same address, no copy, write-through both ways, no rebinding) and ownership (independent value that survives the temporary) are checked after every step through every accessor form",
+        design_ref="4.6",
+        note="the compile-time half (trait table over all cv/ref combinations, move-only payloads) is outside this technique and only evaluated as a model precondition",
+        technique="deterministic simulation: seeded multi-actor aliasing/ownership histories, injected end of lifetime of source temporaries, copy-counting payloads",
     ),
     "C11": dict(
         text="seeded histories over the four parallel-storage containers (vector and array variants of xoptional_* and xcomplex_*), placed in dirty memory, driven by an owner, an element-proxy actor and a storage actor; after every step both storages must have size() elements and every element must read as the pair of its two storage slots through operator[], at, front, back, forward, const and reverse iterators and operator->, with writes landing in exactly that pair",
